@@ -18,7 +18,7 @@ PROP = "C18"
 LEVEL = "exploration"
 RULE = ("Initial state in {absent, healthy with data, pointer lost, creation interrupted (metadata written, pointer missing)} x backend {local, conditional-write "
         "S3} x 2-3 concurrent actors from {create_table(schema A), create_table(schema B), create_table() without schema, load_table, create-then-append with or "
-        "without a schema argument}; interleavings owned by the deterministic scheduler (exhaustive single-preemption enumeration for fixed scenarios, "
+        "without a schema argument, create_table whose own pointer write fails cleanly}; interleavings owned by the deterministic scheduler (exhaustive single-preemption enumeration for fixed scenarios, "
         "Hypothesis PCT schedules for generated ones). Oracle at the end: every metadata file and every returned handle carry ONE table uuid; a pre-existing "
         "table keeps its uuid, schema and rows; the persisted schema is one of the supplied ones and is what schema-less appends used; every append that "
         "returned success is readable exactly once; an append with no schema available raised and wrote no snapshot; load_table raised 'no table' or returned "
@@ -29,7 +29,8 @@ REQUIRED_LABELS = {"quick": ["racing-creators", "init:absent", "init:pointer_los
 A_FIELDS = FIELDS
 B_FIELDS = FIELDS + [{"id": 3, "name": "b", "type": "long", "required": False}]
 INITS = ["absent", "healthy", "pointer_lost", "interrupted"]
-ACTORS = ["create_A", "create_B", "create_none", "load", "create_A_append", "create_B_append_arg", "create_none_append", "create_none_append_argA"]
+ACTORS = ["create_A", "create_B", "create_none", "load", "create_A_append", "create_B_append_arg", "create_none_append", "create_none_append_argA", "create_A_fault", "create_B_fault"]
+# create_X_fault: this creator's write of the version pointer fails cleanly (storage error before any effect)
 
 
 def setup_initial(world, init):
@@ -70,7 +71,14 @@ def actor_fn(world, kind, idx, results):
                 rec["load_error"] = str(e)
             return rec
         sch = {"A": make_schema(A_FIELDS), "B": make_schema(B_FIELDS, 2), "none": None}[kind.split("_")[1]]
-        t = datashard.create_table(loc, sch)
+        if kind.endswith("_fault"):
+            try:
+                t = datashard.create_table(loc, sch)
+            except Exception as e:  # noqa - a creator whose pointer write failed may report the failure ...
+                rec["create_error"] = f"{type(e).__name__}: {str(e)[:80]}"
+                return rec
+        else:
+            t = datashard.create_table(loc, sch)
         rec["handle"] = t
         rec["uuid_at_return"] = uuid_of(t)  # from here on the table exists: its identity must never change
         if "append" in kind:
@@ -103,8 +111,23 @@ def run_case(case):
             return [(f"a{i}", actor_fn(w, k, i, results)) for i, k in enumerate(sc["actors"])]
 
         noexcl = sc.get("lock") == "noexcl" and sc["world"] == "s3cas"
+        faulty = {i for i, k in enumerate(sc["actors"]) if k.endswith("_fault")}
+        fired = set()
+
+        def on_event(sch, a, phase, label, target, info):
+            if a.idx in faulty and a.idx not in fired and phase == "before" and target == HINT:
+                if (world.kind == "local" and label.startswith("storage:write_file")) or (world.kind != "local" and label.startswith("s3:put")):
+                    fired.add(a.idx)
+                    if world.kind == "local":
+                        raise OSError(28, "injected: no space left on device")
+                    from ..fakes3 import client_error
+
+                    raise client_error("AccessDenied", "PutObject", 403)
+
         with (no_exclusion_lock() if noexcl else __import__("contextlib").nullcontext()):
-            run = run_scheduled(world, make_actors, case["schedule"], seed=case.get("seed", 0))
+            run = run_scheduled(world, make_actors, case["schedule"], seed=case.get("seed", 0), on_event=on_event if faulty else None)
+        if fired:
+            out["labels"].append("creator-pointer-write-failed")
         out["labels"] += [f"world:{sc['world']}", f"init:{sc['init']}"] + (["lock:no-exclusion"] if noexcl else [])
         if run.error is not None:
             out["violations"].append((f"scheduler/{type(run.error).__name__}", str(run.error)[:200]))
@@ -133,8 +156,10 @@ def run_case(case):
                     uuids[b] = "unparseable"
         creators = [k for k in sc["actors"] if k.startswith("create")]
         if not uuids:
-            if creators:
-                out["violations"].append(("no-table-created", "creators ran but no metadata file exists"))
+            # a creator that REPORTED failure may leave nothing behind; one that returned a handle must have created (or adopted) a table
+            returned = [i for i, rec in results.items() if rec["kind"].startswith("create") and rec.get("handle") is not None]
+            if returned:
+                out["violations"].append(("no-table-created", f"create_table returned a handle to actor(s) {returned} but no metadata file exists"))
             return out
         if len(set(uuids.values())) != 1 and not noexcl:
             out["violations"].append(("multiple-initialisations", f"metadata files carry {len(set(uuids.values()))} different table uuids: {uuids}"))
@@ -207,6 +232,8 @@ FIXED = [
     {"world": "local", "init": "healthy", "actors": ["create_B", "create_none_append_argA"]},
     {"world": "local", "init": "absent", "actors": ["create_none", "create_A", "load"]},
     {"world": "s3cas", "init": "absent", "lock": "noexcl", "actors": ["create_A", "create_B"]},
+    {"world": "local", "init": "absent", "actors": ["create_A_fault", "create_B_append_arg"]},
+    {"world": "local", "init": "absent", "actors": ["create_A_fault", "load", "create_A_append"]},
 ]
 
 
